@@ -210,7 +210,7 @@ func init() {
 			"'invalid' is only asserted for edits that are invalid by a counting argument (brackets balance in every valid program; no valid program ends in an operator; no grammar allows '* /')",
 			"an error message of the form unexpected 'X' names a single-character token whose text must be selected by the span; the close tag is delivered as ';'",
 		},
-		Plan: func(p core.Params) int { return p.Pick(30000, 1500000) },
+		Plan: func(p core.Params) int { return p.Pick(60000, 1500000) },
 		Run: func(c *core.Ctx, idx int) {
 			if idx%2 == 0 {
 				c06Broken(c, idx)
